@@ -6,6 +6,7 @@
    Executable definitions and boolean checkers only (no property proofs). *)
 From RV Require Import Model.F32.
 From RV Require Import Gen.PixelTables.
+From RV Require Export Model.Blend8.
 Local Open Scope Z_scope.
 
 (* ------------------------------------------------------------------ byte-pair kernels *)
@@ -14,7 +15,6 @@ Definition demul_alpha (c a : Z) : Z := demultiply_alpha_ch c (demultiply_alpha_
 
 Record px := { pr : Z; pg : Z; pb : Z; pa : Z }.
 Definition px0 : px := {| pr := 0; pg := 0; pb := 0; pa := 0 |}.
-Definition is_byte (z : Z) : Prop := 0 <= z <= 255.
 Definition byte_px (p : px) : Prop := is_byte (pr p) /\ is_byte (pg p) /\ is_byte (pb p) /\ is_byte (pa p).
 (* valid premultiplied RGBA *)
 Definition valid_px (p : px) : Prop := pr p <= pa p /\ pg p <= pa p /\ pb p <= pa p.
@@ -152,16 +152,6 @@ Definition morphology (op : mop) (crx cry w h : Z) (data : list px) : list px :=
   flat_map (fun y => map (fun x => morph_pixel op columns rows w h data x y) (zrange (Z.to_nat w) 0))
            (zrange (Z.to_nat h) 0).
 
-(* ------------------------------------------------------------------ tiny-skia u8 blending used by clip/mask/merge
-   Pixmap::apply_mask runs the lowp pipeline: div255(v) = (v + 255) >> 8.
-   draw_pixmap (pattern shader) runs the float pipeline; its result is the exact value rounded to nearest
-   (k/255 is never a tie).  Both are validated exhaustively against the real tiny-skia by the harness tables
-   `mask` and `over:<d>`; tiny-skia itself is not modelled further. *)
-Definition div255 (v : Z) : Z := Z.shiftr (v + 255) 8.
-Definition scale_u8 (c m : Z) : Z := div255 (c * m).                 (* apply_mask: DestinationIn with coverage m *)
-Definition round_div255 (v : Z) : Z := (2 * v + 255) / 510.          (* nearest integer to v / 255 *)
-Definition over_u8 (s sa d : Z) : Z := s + round_div255 (d * (255 - sa)).   (* SourceOver of (s, sa) onto d *)
-
 (* ------------------------------------------------------------------ identity primitives: early returns
    apply_offset / apply_blur return the very input image when the scaled offset / deviation is zero
    (guards and scale_coordinates are source-derived); `shifted` / `blurred` stand for whatever the
@@ -181,12 +171,4 @@ Definition pair_table (f : Z -> Z -> Z) : list Z :=
 Definition grey (c a : Z) : px := {| pr := c; pg := c; pb := c; pa := a |}.
 Definition px_list (p : px) : list Z := [pr p; pg p; pb p; pa p].
 
-(* compare two Z lists, return the indices that differ (and a length mismatch as index = length) *)
-Fixpoint diff_from (a b : list Z) (i : N) : list N :=
-  match a, b with
-  | [], [] => []
-  | x :: r, y :: s => if x =? y then diff_from r s (N.succ i) else i :: diff_from r s (N.succ i)
-  | _, _ => [i]
-  end.
-Definition diff_indices (a b : list Z) : list N := diff_from a b 0%N.
 Definition firstn_N (n : nat) (l : list N) : list N := firstn n l.
